@@ -383,3 +383,22 @@ Example ex_transpose : dense (rt_transpose ex_rt) = [[5; 0; 0]; [0; 0; 2]; [0; 0
 Proof. split; [vm_compute; reflexivity|apply nz_segsb_nz; vm_compute; reflexivity]. Qed.
 Example ex_df_sparse : df_sparse ex_rt = [[Some 5; None; None; Some 7]; [None; None; None; None]; [None; Some 2; Some 0; None]]%Z.
 Proof. vm_compute. reflexivity. Qed.
+
+(* ---- tie to the source: the axis conventions the summaries rest on, against the definitions
+   tools/py2v regenerates from biom/table.py on every check (Gen/HelpersGen.v): the head of
+   Table.sum maps 'whole' / 'sample' / 'observation' to the scipy axis None / 0 / 1 (r_sum3 selects
+   by the same three cases), Table._axis_to_num, Table._invert_axis. *)
+From BiomV Require Gen.Prelude.
+From BiomV Require Import Gen.HelpersGen Proofs.GenBridgeHelpersProofs.
+Theorem sum_axis_is_source : forall a, sum_axis (axis3_str a) = Gen.Prelude.Ok (scipy_axis a).
+Proof. exact sum_axis_bridge. Qed.
+Print Assumptions sum_axis_is_source.
+
+Theorem axis_to_num_is_source : forall a,
+  axis_to_num (axis_str a) = Gen.Prelude.Ok (match a with Obs => 0%nat | Samp => 1%nat end).
+Proof. exact axis_to_num_bridge. Qed.
+Print Assumptions axis_to_num_is_source.
+
+Theorem invert_axis_is_source : forall a, invert_axis (axis_str a) = inl (axis_str (other a)).
+Proof. exact invert_axis_bridge. Qed.
+Print Assumptions invert_axis_is_source.
